@@ -184,6 +184,9 @@ type Sidecar struct {
 	DropPost  string // "", "any", "add", "transfer"
 	LoseReply string
 	PostFail  int // targets updates are answered with an error for this many cycles (everything else works)
+	// JobBroken: the sidecar's scrape manager has no HTTP client for these jobs for this many cycles (e.g. the job's
+	// CA file is missing on this pod): the proxy refuses their scrapes without asking the target
+	JobBroken map[string]int
 
 	LastCode map[uint64]int // answer of the proxy to the last scrape of a target (simulated Prometheus' view)
 }
@@ -254,7 +257,10 @@ type World struct {
 	holdArr   chan uint64
 	holdWait  sync.WaitGroup
 	holdN     int
+	tokSeq    int64
+	tokSeen   map[string]bool // request tokens the target farm has seen
 	InFlight  int // scrapes that were in flight while a cycle ran
+	Refused   int // scrapes the proxy answered without asking the target
 	StopCheck []string
 }
 
@@ -298,6 +304,12 @@ func (f farmTransport) RoundTrip(r *http.Request) (*http.Response, error) {
 		f.w.ScrapedIn = map[uint64]int{}
 	}
 	f.w.ScrapedIn[h] = f.w.ScrapeRound
+	if tok := r.URL.Query().Get("vtok"); tok != "" {
+		if f.w.tokSeen == nil {
+			f.w.tokSeen = map[string]bool{}
+		}
+		f.w.tokSeen[tok] = true
+	}
 	gate, arr := f.w.holdGate, f.w.holdArr
 	if !f.w.holdSet[h] {
 		gate = nil
@@ -343,6 +355,9 @@ func (w *World) newSidecar(ordinal int, dir string) *Sidecar {
 	sc.Cfg.AddReloadCallbacks(sc.SM.ApplyConfig, sc.Inj.ApplyConfig)
 	sc.TM.AddUpdateCallbacks(sc.Inj.UpdateTargets)
 	getJob := func(job string) *kscrape.JobInfo {
+		if sc.JobBroken[job] > 0 {
+			return nil
+		}
 		ji := sc.SM.GetJob(job)
 		if ji != nil {
 			ji.Cli = w.farmCli
@@ -991,14 +1006,28 @@ func (w *World) ReleaseHeld() {
 
 func (w *World) scrapeOne(i int, sc *Sidecar, pt promTarget) {
 	{
-		req := httptest.NewRequest("GET", pt.url, nil)
+		// the request carries a token: only a scrape that reached the target counts as a scrape attempt
+		w.mu.Lock()
+		w.tokSeq++
+		tok := fmt.Sprint(w.tokSeq)
+		w.mu.Unlock()
+		sep := "&"
+		if !strings.Contains(pt.url, "?") {
+			sep = "?"
+		}
+		req := httptest.NewRequest("GET", pt.url+sep+"vtok="+tok, nil)
 		rec := httptest.NewRecorder()
 		func() {
 			defer func() { _ = recover() }() // the proxy aborts a response that fails mid-body
 			sc.Proxy.ServeHTTP(rec, req)
 		}()
 		w.mu.Lock()
-		if w.SinceChange != nil && w.SinceChange[i] != nil {
+		reached := w.tokSeen[tok]
+		delete(w.tokSeen, tok)
+		if !reached {
+			w.Refused++
+		}
+		if reached && w.SinceChange != nil && w.SinceChange[i] != nil {
 			if _, ok := w.SinceChange[i][pt.hash]; ok {
 				w.SinceChange[i][pt.hash]++
 			}
@@ -1152,6 +1181,11 @@ func (w *World) Cycle() *CycleRec {
 		if sc.PostFail > 0 {
 			sc.PostFail--
 		}
+		for j := range sc.JobBroken {
+			if sc.JobBroken[j] > 0 {
+				sc.JobBroken[j]--
+			}
+		}
 	}
 	w.Cycles = append(w.Cycles, rec)
 	return rec
@@ -1191,6 +1225,14 @@ func (w *World) Do(a Action) {
 		w.ScrapeAll()
 	case "scrapeHeld":
 		w.ScrapeHeld(a.Shard, a.Hash)
+	case "jobBroken":
+		if a.Shard < len(w.Shards) {
+			sc := w.Shards[a.Shard]
+			if sc.JobBroken == nil {
+				sc.JobBroken = map[string]int{}
+			}
+			sc.JobBroken[a.Job] = a.K
+		}
 	case "postFail":
 		if a.Shard < len(w.Shards) {
 			w.Shards[a.Shard].PostFail = a.K
@@ -1272,5 +1314,6 @@ func (w *World) Do(a Action) {
 func (w *World) ClearFaults() {
 	for _, sc := range w.Shards {
 		sc.Unready, sc.GetFail, sc.RejectCfg, sc.DropPost, sc.LoseReply, sc.PostFail = 0, 0, 0, "", "", 0
+		sc.JobBroken = nil
 	}
 }
